@@ -173,25 +173,59 @@ def r2(ctx):
     g = f.cfg
     adds = [c for c in method_calls(f, "add_argument")]
     ctx.need(adds, "C16.R2: add_option never calls parser.add_argument")
-    kw = None
-    for c in adds:
-        for k in c.keywords:
-            if k.arg is None and isinstance(k.value, ast.Name):
-                kw = k.value.id
-    ctx.need(kw, "C16.R2: add_argument(**kwargs) form not recognised")
-    lit = [s.ast.value for s in stores_to_name(f, kw) if isinstance(s.ast, ast.Assign) and isinstance(s.ast.value, ast.Dict)]
-    ctx.need(len(lit) == 1, "C16.R2: kwargs literal not found")
-    d = dict((const(k, NO), v) for k, v in zip(lit[0].keys, lit[0].values))
-    ctx.check("C16.R2", "dest" in d and norm(d["dest"]) == "self.name", key(f, "dest"), site(f), "the option is not stored under the setting's own name (dest=%s): cfg.set(k, v) in load_config would address another setting" % (norm(d["dest"]) if "dest" in d else None),
-              "dest=self.name")
-    ctx.check("C16.R2", "default" in d and isinstance(d["default"], ast.Constant) and d["default"].value is None, key(f, "default-none"), site(f),
-              "argparse default is `%s`, not None: a flag that was NOT given would overwrite the value from a less authoritative source (config file) with the built-in default" % (norm(d["default"]) if "default" in d else "<absent>"),
-              "default=None")
-    # no later override of 'default' / 'dest'
-    for s in g.stmts(ast.Assign):
-        for t in s.ast.targets:
-            if isinstance(t, ast.Subscript) and isinstance(t.value, ast.Name) and t.value.id == kw and const(t.slice, NO) in ("default", "dest"):
-                ctx.bad("C16.R2", key(f, "override|" + str(const(t.slice))), site(f, s), "kwargs[%r] is overwritten after the literal" % const(t.slice))
+    # evaluated: the keyword arguments handed to parser.add_argument for representative setting declarations
+    from ..absint import Explorer, UNKNOWN
+    call = adds[0]
+    nodes = nodes_with(f, call)
+
+    def kwargs_of(ex_, env):
+        out = {}
+        for k in call.keywords:
+            if k.arg is None:
+                v = ex_.ev(k.value, env)
+                if not isinstance(v, dict):
+                    return UNKNOWN
+                out.update(v)
+            else:
+                out[k.arg] = ex_.ev(k.value, env)
+        return tuple(sorted((str(a), repr(b)) for a, b in out.items() if a != "help"))
+    decls = [
+        {"action": None, "const": None, "meta": None, "nargs": None, "type": None},
+        {"action": None, "const": None, "meta": "INT", "nargs": None, "type": "<int>"},
+        {"action": "store_true", "const": None, "meta": None, "nargs": None, "type": None},
+        {"action": "store_const", "const": False, "meta": None, "nargs": None, "type": None},
+        {"action": "store_const", "const": 0, "meta": None, "nargs": None, "type": None},
+        {"action": "store_const", "const": True, "meta": None, "nargs": None, "type": None},
+        {"action": "append", "const": None, "meta": "STRING", "nargs": None, "type": None},
+        {"action": None, "const": None, "meta": "", "nargs": "?", "type": None},
+    ]
+    rows = []
+    for dcl in decls:
+        env = {"self.cli": ("--opt",), "self.name": "opt_name", "self.short": "s", "self.default": "dflt"}
+        env.update(("self." + k, v) for k, v in dcl.items())
+        ex = Explorer(f)
+        outs = ex.run(g.entry, env, probes={n.id: ("kw", kwargs_of) for n in nodes})
+        got = set(e[1] for o in outs for e in o.events if isinstance(e, tuple) and e[0] == "kw")
+        action = dcl["action"] or "store"
+        want = {"dest": "opt_name", "action": action, "default": None}
+        if action == "store":
+            want["type"] = dcl["type"] if dcl["type"] is not None else "@cls"
+        for a, b in (("metavar", "meta"), ("nargs", "nargs"), ("const", "const")):
+            if dcl[b] is not None:
+                want[a] = dcl[b]
+
+        def norm_got(t):
+            d = dict(t) if isinstance(t, tuple) else {}
+            if "type" in d and dcl["type"] is None and action == "store":
+                d["type"] = repr("@cls") if "str" in d["type"] else d["type"]
+            return tuple(sorted(d.items()))
+        wantt = tuple(sorted((a, repr(b)) for a, b in want.items()))
+        gotn = set(norm_got(t) for t in got)
+        rows.append({"declaration": dcl, "kwargs": sorted(map(str, gotn)), "required": str(wantt)})
+        ctx.check("C16.R2", gotn == {wantt}, key(f, "kwargs|%s|%s|%s|%s" % (action, dcl["const"], dcl["meta"], dcl["nargs"])), site(f, text="setting with action=%s const=%r meta=%r nargs=%r" % (action, dcl["const"], dcl["meta"], dcl["nargs"])),
+                  "add_argument receives %s, required %s: the flag would parse to a different value (e.g. a store_const option whose const is False parses to None = 'not mentioned', "
+                  "so the command line no longer overrides the file) or an absent flag would not be None" % (sorted(map(str, gotn)), wantt), "dest=name, default=None, declared const/metavar/nargs passed on")
+    ctx.table("C16.R2 add_argument kwargs", rows)
     # options without cli are not registered (they cannot be 'mentioned' on a command line)
     def nocli(e):
         if isinstance(e, ast.Attribute) and e.attr == "cli":
